@@ -143,7 +143,7 @@ def run_shards(prop, cfg, tier, seed, outdir, only=None, binpath=None, env=None)
                     # odd shards: another ciphersuite (with other encoding sizes) is used first in the same process
                     cmd += ["--prelude", PRELUDE[s]]
             jobs.append((s, i, cmd))
-    watchdog = cfg.get("watchdog", {"quick": 900, "thorough": 7200})[tier]
+    watchdog = int(os.environ.get("FV_WATCHDOG") or cfg.get("watchdog", {"quick": 900, "thorough": 7200})[tier])
     running, results, dead = [], [], []
     queue = list(jobs)
     t0 = time.time()
